@@ -354,3 +354,104 @@ Fixpoint bexp_ok (n : nat) (b : bexp) : bool :=
   | BWW e w ks => ref_ok n e && ref_ok n w &&
                   match ks with None => true | Some l => forallb (fun kb => bexp_ok n (snd kb)) l end
   end.
+
+(* ---------- arguments of AddErrorToValidation as the caller writes them ---------- *)
+Inductive earg := ANil | ANilPtr | APlain (s : string) | AVE (b : bexp) | AWrap (s : string) (a : earg).
+
+Fixpoint build_earg (a : earg) (h : heap) : err * heap :=
+  match a with
+  | ANil => (ENil, h)
+  | ANilPtr => (ENilPtr, h)
+  | APlain s => (EPlain s, h)
+  | AVE b => let '(t, h1) := build b h in (EVE t, h1)
+  | AWrap s a' => let '(e, h1) := build_earg a' h in (EWrap s e, h1)
+  end.
+
+Fixpoint earg_ok (n : nat) (a : earg) : bool :=
+  match a with AVE b => bexp_ok n b | AWrap _ a' => earg_ok n a' | _ => true end.
+
+(* ---------- histories: reads and AddErrorToValidation calls interleaved on one running object ---------- *)
+(* The running object [cur : option ve] is a *ValidationError variable (None = nil), as in
+     var ve *ValidationError; ve = AddErrorToValidation(ve, err1); log(ve.Error()); ve = AddErrorToValidation(ve, err2) ...
+   Descendants reached through GetChildErrors() can be read and extended too: they share their maps with the
+   running object, so extending a child changes the parent's value.  (A node's FIELDS are values in the model:
+   extending a child that lacks the map to be written would assign the child's field, which the parent's copy
+   does not see - the harness only extends children that have the map.) *)
+Fixpoint kid_lookup (l : list (string * ve)) (k : string) : option ve :=
+  match l with
+  | [] => None
+  | (k', c) :: r => if String.eqb k' k then Some c else kid_lookup r k
+  end.
+
+Fixpoint child_at (t : ve) (path : list string) : option ve :=
+  match path with
+  | [] => Some t
+  | k :: r => match t with
+              | Node _ _ ks => match kid_lookup (okids ks) k with
+                               | Some c => child_at c r
+                               | None => None
+                               end
+              end
+  end.
+
+(* a *ValidationError variable passed as an error: nil becomes a nil pointer inside a non-nil interface *)
+Definition cur_err (cur : option ve) : err := match cur with Some t => EVE t | None => ENilPtr end.
+
+Inductive hop :=
+| HRead (op : read_op)                             (* cur.<read>() *)
+| HReadChild (path : list string) (op : read_op)   (* cur.GetChildErrors()[..]...<read>() *)
+| HAdd (a : earg)                                  (* cur = AddErrorToValidation(cur, a) *)
+| HAddTo (a : earg)                                (* cur = AddErrorToValidation(a, cur) *)
+| HAddChild (path : list string) (a : earg).       (* AddErrorToValidation(child, a), result dropped *)
+
+(* what a step shows: nothing (not applicable: cur is nil / no such child), the value read, or the value of the
+   running object after the call *)
+Inductive hres := HSkip | HVal (v : read_val) | HAbs (a : option vt).
+
+Definition hstep (o : hop) (cur : option ve) (h : heap) : outcome (hres * option ve * heap) :=
+  match o with
+  | HRead op =>
+      match cur with
+      | None => Result (HSkip, cur, h)
+      | Some t => bind (do_read op t h) (fun '(v, h') => Result (HVal v, cur, h'))
+      end
+  | HReadChild p op =>
+      match cur with
+      | None => Result (HSkip, cur, h)
+      | Some t => match child_at t p with
+                  | None => Result (HSkip, cur, h)
+                  | Some c => bind (do_read op c h) (fun '(v, h') => Result (HVal v, cur, h'))
+                  end
+      end
+  | HAdd a =>
+      let '(e, h1) := build_earg a h in
+      bind (add_error_to_validation (cur_err cur) e h1) (fun '(r, h2) =>
+      Result (HAbs (option_map (abs h2) r), r, h2))
+  | HAddTo a =>
+      let '(e, h1) := build_earg a h in
+      bind (add_error_to_validation e (cur_err cur) h1) (fun '(r, h2) =>
+      Result (HAbs (option_map (abs h2) r), r, h2))
+  | HAddChild p a =>
+      match cur with
+      | None => Result (HSkip, cur, h)
+      | Some t => match child_at t p with
+                  | None => Result (HSkip, cur, h)
+                  | Some c =>
+                      let '(e, h1) := build_earg a h in
+                      bind (add_error_to_validation (EVE c) e h1) (fun '(_, h2) =>
+                      Result (HAbs (Some (abs h2 t)), cur, h2))
+                  end
+      end
+  end.
+
+Fixpoint run_history (ops : list hop) (cur : option ve) (h : heap) : outcome (list hres * option ve * heap) :=
+  match ops with
+  | [] => Result ([], cur, h)
+  | o :: r => bind (hstep o cur h) (fun '(x, cur1, h1) =>
+              bind (run_history r cur1 h1) (fun '(xs, cur2, h2) => Result (x :: xs, cur2, h2)))
+  end.
+
+Definition hop_ok (n : nat) (o : hop) : bool :=
+  match o with HAdd a | HAddTo a | HAddChild _ a => earg_ok n a | _ => true end.
+
+Definition cur_wf (h : heap) (cur : option ve) : bool := match cur with Some t => wf h t | None => true end.
